@@ -244,14 +244,32 @@ macro_rules! size_ops {
 
             /// One `map_to_with_table_flags` from an arbitrary hierarchy state.
             pub fn map(inst: Inst) {
+                map_via(inst, 0)
+            }
+            /// One `map_to` (parent flags derived from the leaf flags: PRESENT | WRITABLE | USER_ACCESSIBLE of them).
+            pub fn map_plain(inst: Inst) {
+                map_via(inst, 1)
+            }
+            /// One `identity_map` (the page is the one whose address equals the frame's; lower-half instances only).
+            pub fn map_identity(inst: Inst) {
+                map_via(inst, 2)
+            }
+            fn map_via(inst: Inst, via: u8) {
                 let sc = build(inst, LEAF);
                 let (page, a) = page_of(&inst);
-                let fa = if inst.conc { 0x0000_000a_8000_0000 } else { any_phys() };
-                kani::assume(fa % SIZE == 0 && fa + SIZE <= BASE);
+                let fa = if via == 2 { a } else if inst.conc { 0x0000_000a_8000_0000 } else { any_phys() };
+                // data frames lie below the pool; an identity-mapped frame lies where its page does (no instance's
+                // page address falls into a pool frame)
+                kani::assume(fa % SIZE == 0 && (via == 2 || fa + SIZE <= BASE));
                 let frame = PhysFrame::<$S>::containing_address(PhysAddr::new(fa));
-                let flags = if inst.conc { P | W | (1 << 63) | (1 << 10) } else { any_flags() | P };
+                let mut flags = if inst.conc { P | W | (1 << 63) | (1 << 10) } else { any_flags() | P };
+                if via != 0 {
+                    // map_to / identity_map derive the parent flags from the leaf flags: keep those two bits concrete
+                    // (regime R2-: parent flags are concrete per instance)
+                    flags = (flags & !(W | U)) | (inst.pflags & (W | U));
+                }
                 let tr_inpage = LEAF == 1 || inst.conc;
-                let pflags = (inst.pflags | P) & !PS;
+                let pflags = if via == 0 { (inst.pflags | P) & !PS } else { flags & (P | W | U) };
                 let fail_at: u8 = inst.fail;
                 let mut alloc = Alloc::new(sc.free, fail_at);
                 // ---- before
@@ -289,7 +307,13 @@ macro_rules! size_ops {
                 let alloc_fails = !huge_parent && fail_at != 0 && fail_at <= need;
                 // ---- the call
                 let mut m = $mk();
-                let r = unsafe { m.map_to_with_table_flags(page, frame, PageTableFlags::from_bits_retain(flags), PageTableFlags::from_bits_retain(pflags), &mut alloc) };
+                let r = unsafe {
+                    match via {
+                        0 => m.map_to_with_table_flags(page, frame, PageTableFlags::from_bits_retain(flags), PageTableFlags::from_bits_retain(pflags), &mut alloc),
+                        1 => m.map_to(page, frame, PageTableFlags::from_bits_retain(flags), &mut alloc),
+                        _ => m.identity_map(frame, PageTableFlags::from_bits_retain(flags), &mut alloc),
+                    }
+                };
                 kani::cover!(true); // the call returns (reachability witness; later obligations may cut the path)
                 // ---- outcome
                 let ok = match r {
@@ -526,6 +550,117 @@ macro_rules! size_ops {
                     let is_leaf_slot = pre.tab[(4 - LEAF) as usize] == Some(s.k) && s.i == idx(a, LEAF);
                     if !(ok && is_leaf_slot) {
                         vp!(C09, raw(s.k, s.i) == wbefore[j], "update_flags modified memory other than the page's own entry");
+                    }
+                    j += 1;
+                }
+            }
+
+            /// One `set_flags_p4_entry` / `set_flags_p3_entry` / `set_flags_p2_entry` (`level` = 4, 3, 2) from an
+            /// arbitrary hierarchy state: the entry of that level on the page's path gets exactly the given flags
+            /// and keeps its address; PageNotMapped when an entry down to that level is unused, ParentEntryHugePage
+            /// when an entry above it is a huge page or pages of this size have no entry of that level.
+            pub fn set_parent_flags(inst: Inst, level: u32) {
+                let sc = build(inst, 0);
+                let (page, a) = page_of(&inst);
+                let pre = pre_path(a);
+                let was = pre.ent[(4 - level) as usize];
+                // `conc`: concrete flags that keep the entry's kind, so that the crate's translate* can be run afterwards
+                let flags = if inst.conc { P | U | (1 << 9) | (was & PS) } else { any_flags() };
+                let mut before = [NOT_MAPPED; 5];
+                let mut wbefore = [0u64; 24];
+                let mut j = 0;
+                while j < 5 {
+                    before[j] = hw_walk(sc.probes[j]);
+                    kani::assume(before[j].kind != 9);
+                    j += 1;
+                }
+                j = 0;
+                while j < sc.nwit {
+                    wbefore[j] = raw(sc.wit[j].k, sc.wit[j].i);
+                    j += 1;
+                }
+                // ---- expected outcome: 0 = Ok, 1 = PageNotMapped, 2 = ParentEntryHugePage
+                let mut expect = 0u8;
+                if level <= LEAF {
+                    expect = 2;
+                } else {
+                    let mut l = 4u32;
+                    loop {
+                        let e = pre.ent[(4 - l) as usize];
+                        if e == 0 {
+                            expect = 1;
+                            break;
+                        }
+                        if l == level {
+                            break;
+                        }
+                        if e & PS != 0 {
+                            expect = 2;
+                            break;
+                        }
+                        l -= 1;
+                    }
+                }
+                let mut m = $mk();
+                let fl = PageTableFlags::from_bits_retain(flags);
+                let r = unsafe {
+                    match level {
+                        4 => Mapper::<$S>::set_flags_p4_entry(&mut m, page, fl),
+                        3 => Mapper::<$S>::set_flags_p3_entry(&mut m, page, fl),
+                        _ => Mapper::<$S>::set_flags_p2_entry(&mut m, page, fl),
+                    }
+                };
+                kani::cover!(true);
+                let ok = match r {
+                    Ok(_) => {
+                        vp!(C02, expect == 0, "set_flags_pN_entry reported success although that entry does not exist for the page (unused, below a huge page, or no such level for this page size)");
+                        true
+                    }
+                    Err(FlagUpdateError::PageNotMapped) => {
+                        vp!(C02, expect == 1, "set_flags_pN_entry reported PageNotMapped although every entry down to that level is in use");
+                        false
+                    }
+                    Err(FlagUpdateError::ParentEntryHugePage) => {
+                        vp!(C02, expect == 2, "set_flags_pN_entry reported ParentEntryHugePage although no entry above that level is a huge page");
+                        false
+                    }
+                };
+                vp!(C09, unsafe { !STRAY_ACCESS }, "mapper dereferenced a frame that is not a page table of the hierarchy");
+                let ttab = pre.tab[(4 - level) as usize];
+                if ok {
+                    if let Some(t) = ttab {
+                        vp!(C01, raw(t, idx(a, level)) == (was & ADDR) | flags, "after set_flags_pN_entry the entry does not hold exactly the given flags with its address unchanged");
+                    }
+                }
+                j = 0;
+                while j < 5 {
+                    let p = sc.probes[j];
+                    let after = hw_walk(p);
+                    let mut under = true;
+                    let mut l = 4u32;
+                    while l >= level {
+                        if idx(p, l) != idx(a, l) {
+                            under = false;
+                        }
+                        l -= 1;
+                    }
+                    if !(ok && under) {
+                        vp!(C02, same_mapping(&before[j], &after) && after.eff_w == before[j].eff_w && after.eff_u == before[j].eff_u, "set_flags_pN_entry changed the mapping or rights of an address outside the entry's region / a failed call changed a mapping");
+                    } else if was & PS == 0 && flags & PS == 0 && flags & P != 0 {
+                        vp!(C01, same_mapping(&before[j], &after), "set_flags_pN_entry of a table entry changed frame, size or leaf flags of a mapping below it");
+                        vp!(C01, (!after.eff_w || flags & W != 0) && (!after.eff_u || flags & U != 0), "after set_flags_pN_entry the effective rights below the entry exceed the flags that were set");
+                    }
+                    if inst.conc {
+                        check_translate_agrees(&m, p);
+                    }
+                    j += 1;
+                }
+                j = 0;
+                while j < sc.nwit {
+                    let s = sc.wit[j];
+                    let is_target = ttab == Some(s.k) && s.i == idx(a, level);
+                    if !(ok && is_target) {
+                        vp!(C09, raw(s.k, s.i) == wbefore[j], "set_flags_pN_entry modified memory other than the addressed parent entry");
                     }
                     j += 1;
                 }
